@@ -666,6 +666,35 @@ def scenLoop (toks : List String) (obs : String) : Verdict :=
     | _, _ => .bad "parse"
   | _ => .bad "parse"
 
+/-- `sched <link> <packets> <script> [chunk]`: an enumerated placement of "no data yet" answers in the wire of the packets -/
+def scenSched (toks : List String) (obs : String) : Verdict :=
+  match toks with
+  | link :: ps :: script :: _ =>
+    match (ps.splitOn "+").mapM parsePacket with
+    | none => .bad "parse"
+    | some pkts =>
+      let want := pkts.map fun p => "ok(" ++ showPacketShort p ++ ")"
+      -- the script's data must be the model's wire image of the packets (checks the generator's reference encoder too)
+      let modelAns : Option (String × Bool) :=
+        if link == "can" then do
+          let items ← parseCanItems script
+          let wire ← pkts.mapM canOf
+          let data := items.filterMap fun | .frame c => some c | _ => none
+          pure (showTrace (canPollsSt none items), data == wire.flatten)
+        else do
+          let items ← parseByteItems script
+          let bodies ← pkts.mapM bodiesOf
+          let data := items.filterMap fun | .byte b => some b | _ => none
+          pure (showTrace (byteTrace link items), data == wireOf bodies.flatten)
+      match modelAns with
+      | none => .bad "parse"
+      | some (a, wireOk) =>
+        if !wireOk then .bad "MODEL: the enumerated script does not carry the model's wire image of the packets"
+        else if a == obs then .ok
+        else if emissionsOf obs == want then .corr a
+        else .prop "C13" "the receiver does not return exactly the packets on the wire, in order, under this schedule" a
+  | _ => .bad "parse"
+
 /-- classify a delivered packet the way a receiving application does: by the unique decoder that accepts it -/
 def classify (p : Packet) : String :=
   match Kind.all.filterMap fun k => match decode k p with | .ok e => some e | _ => none with
@@ -814,6 +843,7 @@ def judge (inp obs : String) : Verdict :=
   | "rxh" :: link :: items :: _ => scenRxh link items obs
   | "tx" :: rest => scenTx rest obs
   | "loop" :: rest => scenLoop rest obs
+  | "sched" :: rest => scenSched rest obs
   | "psend" :: rest => scenPsend rest obs
   | "e2e" :: rest => scenE2e rest obs
   | ["proto", addr, rxq, txq, ops] => scenProto addr rxq txq ops obs
